@@ -6,7 +6,7 @@ from hypothesis import strategies as st
 
 from ECAgent.Batching import ParameterList
 from vf.engine import Violation, InvalidCase
-from vf.fixtures import check, expect_raises, sized_lists
+from vf.fixtures import check, expect_raises, sized_lists, wone_of
 
 PROPERTY = "C14"
 BUDGET = {"quick": 3000, "thorough": 8000}
@@ -185,10 +185,10 @@ def run_case(case):
 
 
 def strategy(tier):
-    elem = st.one_of(st.integers(-3, 3), st.sampled_from([0.5, -1.25, 1e300]), st.sampled_from(["a", "", "bc"]), st.none(), st.booleans())
-    num = st.one_of(st.integers(-3, 3), st.sampled_from([0.5, -1.25, 2.0]))
-    val = st.one_of(
-        st.builds(lambda v: {"k": "scalar", "v": v}, st.one_of(st.integers(-5, 5), st.sampled_from([0.5, 1e300]), st.none(), st.booleans())),
+    elem = wone_of(st.integers(-3, 3), st.sampled_from([0.5, -1.25, 1e300]), st.sampled_from(["a", "", "bc"]), st.none(), st.booleans())
+    num = wone_of(st.integers(-3, 3), st.sampled_from([0.5, -1.25, 2.0]))
+    val = wone_of(
+        st.builds(lambda v: {"k": "scalar", "v": v}, wone_of(st.integers(-5, 5), st.sampled_from([0.5, 1e300]), st.none(), st.booleans())),
         st.builds(lambda v: {"k": "obj", "v": v}, st.integers(0, 2)),
         st.builds(lambda v: {"k": "str", "v": v}, st.sampled_from(["", "a", "hello", "xy"])),
         st.builds(lambda v: {"k": "list", "v": v}, st.lists(elem, max_size=4)),
@@ -197,10 +197,10 @@ def strategy(tier):
         st.builds(lambda v: {"k": "range", "v": v}, st.integers(0, 4)),
         st.builds(lambda v: {"k": "array", "v": v}, st.lists(num, max_size=4)),
     )
-    name = st.one_of(st.sampled_from(["a", "b", "c", "d", "", "é", "records", "a b"]), st.text(max_size=3))
-    op = st.one_of(st.fixed_dictionaries({"op": st.just("add"), "name": name, "val": val}),
+    name = wone_of(st.sampled_from(["a", "b", "c", "d", "", "é", "records", "a b"]), st.text(max_size=3))
+    op = wone_of(st.fixed_dictionaries({"op": st.just("add"), "name": name, "val": val}),
                    st.fixed_dictionaries({"op": st.just("add"), "name": name, "val": val}),
                    st.fixed_dictionaries({"op": st.just("remove"), "i": st.integers(0, 5), "unknown": st.sampled_from([False, False, True])}),
                    st.fixed_dictionaries({"op": st.just("bad_name"), "kind": st.sampled_from(["int", "none", "tuple", "bytes"])}))
-    ctor = st.one_of(st.none(), st.lists(st.tuples(name, val).map(list), max_size=4))
+    ctor = wone_of(st.none(), st.lists(st.tuples(name, val).map(list), max_size=4))
     return st.fixed_dictionaries({"ctor": ctor, "ctor_bad_key": st.booleans(), "ops": sized_lists(op, 0, 10)})
